@@ -290,6 +290,31 @@ def run_item(item, workdir, paths):
                 return "same" if b == u.encode(enc) else "DIFF %r vs %r" % (b[:40], u.encode(enc)[:40])
 
             out[enc] = _outcome(both)
+        # a narrow charset with a non-strict error policy: the whole page and every def rendered on its own
+        # (get_def(name).render()) are render_unicode() encoded with the template's output_encoding and encoding_errors
+        for enc, err in (("ascii", "xmlcharrefreplace"), ("ascii", "replace"), ("latin-1", "htmlentityreplace")):
+            L = lk(output_encoding=enc, encoding_errors=err)
+            for uri, text in item["files"].items():
+                L.put_string(uri, text)
+            t = L.get_template(main)
+
+            def both2():
+                u = t.render_unicode(**ctx)
+                b = t.render(**ctx)
+                if b != u.encode(enc, err):
+                    return "DIFF %r vs %r" % (b[:40], u.encode(enc, err)[:40])
+                for n in sorted(t.list_defs()):
+                    d = t.get_def(n)
+                    try:
+                        du = d.render_unicode(**ctx)
+                    except Exception:  # noqa
+                        continue  # a def that cannot be rendered on its own (it needs arguments / a caller)
+                    db = d.render(**ctx)
+                    if db != du.encode(enc, err):
+                        return "DIFF def %s %r vs %r" % (n, db[:40], du.encode(enc, err)[:40])
+                return "same"
+
+            out[enc + "/" + err] = _outcome(both2)
         res["out-enc"] = {"renders": out}
     if "cmd" in paths:
         from mako import cmd
